@@ -554,6 +554,52 @@ def select_search(repo):
     return ok
 
 
+def nesting_limits(repo):
+    """resolve.c: depth counters in front of the recursive resolvers (expression, statement, type, supertype expression)"""
+    r = _strip_comments(_read(repo, "src/express/resolve.c"))
+    err = _strip_comments(_read(repo, "src/express/error.c"))
+    m = re.search(r"\[\s*SYNTAX\s*\]\s*=\s*\{\s*(SEVERITY_\w+)", err)
+    fatal = bool(m and m.group(1) in ("SEVERITY_EXIT", "SEVERITY_DUMP", "SEVERITY_MAX"))
+    lim = re.search(r"#\s*define\s+RESOLVE_MAX_NESTING\s+(\d+)", r)
+    out = []
+    for what, sig, counter in (("expression", r"void\s+EXP_resolve\s*\(\s*Expression\s+expr[^)]*\)\s*\{", "EXP_resolve_depth"),
+                               ("statement", r"void\s+STMTresolve\s*\(\s*Statement\s+statement[^)]*\)\s*\{", "STMT_resolve_depth"),
+                               ("type", r"void\s+TYPE_resolve\s*\(\s*Type\s*\*\s*typeaddr[^)]*\)\s*\{", "TYPE_resolve_depth"),
+                               ("supertype expression", r"int\s+ENTITYresolve_subtype_expression\s*\(\s*Expression\s+expr[^)]*\)\s*\{", "SUBTYPE_resolve_depth")):
+        b = _body(r, sig, what + " resolver")
+        g = re.search(r"if\s*\(\s*" + counter + r"\s*>=\s*RESOLVE_MAX_NESTING\s*\)\s*\{\s*RESOLVEnested_too_deeply\s*\([^;]*\)\s*;(.*?)return\b[^;]*;\s*\}\s*" +
+                      counter + r"\+\+\s*;[^;]*;\s*" + counter + r"--\s*;", b, re.S)
+        ok = bool(g and lim and fatal)
+        if ok:
+            h = _body(r, r"static\s+void\s+RESOLVEnested_too_deeply\s*\([^)]*\)\s*\{", "RESOLVEnested_too_deeply")
+            ok = bool(re.search(r"ERRORreport_with_symbol\s*\(\s*SYNTAX\b", h))
+        out.append((what, int(lim.group(1)) if ok else None))
+    for what, sig in (("chain of subtypes", r"int\s+ENTITY_check_subsuper_cyclicity\s*\(\s*Entity\s+e\s*,\s*Entity\s+enew\s*\)\s*\{"),
+                      ("chain of supertypes", r"void\s+ENTITYcalculate_inheritance\s*\(\s*Entity\s+e\s*\)\s*\{")):
+        b = _body(r, sig, what)
+        g = re.search(r"static\s+int\s+depth\s*=\s*0\s*;.*?if\s*\(\s*depth\s*>=\s*RESOLVE_MAX_NESTING\s*\)\s*\{\s*RESOLVEnested_too_deeply\s*\([^;]*\)\s*;\s*return\b[^;]*;\s*\}\s*depth\+\+\s*;", b, re.S)
+        ok = bool(g and lim and fatal and re.search(r"depth--\s*;", b))
+        out.append((what, int(lim.group(1)) if ok else None))
+    # the OTHERWISE action of a CASE statement must be resolved (and so counted) as well
+    ci = _body(r, r"void\s+CASE_ITresolve\s*\([^)]*\)\s*\{", "CASE_ITresolve")
+    otherwise = bool(re.search(r"if\s*\(\s*validLabels\s*\|\|\s*LISTempty\s*\(\s*item->labels\s*\)\s*\)\s*\{[^}]*STMTresolve\s*\(\s*item->action", ci, re.S))
+    return out, otherwise
+
+
+def python_indent(repo):
+    t = _strip_comments(_read(repo, "src/exp2python/src/classes_python.c"))
+    b = _body(t, r"void\s+python_indent\s*\(\s*FILE\s*\*\s*file\s*,\s*int\s+indent_level\s*\)\s*\{", "python_indent")
+    if re.search(r"for\s*\(\s*i\s*=\s*0\s*;\s*i\s*<\s*indent_level\s*;\s*i\+\+\s*\)\s*\{\s*fprintf\s*\(\s*file\s*,\s*\"\\t\"\s*\)", b):
+        return ".loop"
+    m = re.search(r"char\s+(\w+)\s*\[\s*\]\s*=\s*\"((?:\\t)+)\"\s*;", b)
+    w = m and re.search(r"fwrite\s*\(\s*" + m.group(1) + r"\s*,\s*1\s*,[^,]*indent_level[^,]*,\s*file\s*\)", b)
+    if m and w:
+        clamp = re.search(r"indent_level\s*>\s*(\d+)|sizeof\s*\(\s*" + m.group(1), b)
+        if not clamp:
+            return f".array {len(m.group(2)) // 2}"
+    raise ValueError("python_indent: how the indentation is written is not recognised")
+
+
 def _opt(v):
     return "none" if v is None else f"(some {v})"
 
@@ -571,6 +617,8 @@ def extract(repo):
     nu = non_unique(repo)
     sb_alloc, sb_room, sb_policy, sb_extra = string_buffer(repo)
     sel_stable = select_search(repo)
+    nest, otherwise = nesting_limits(repo)
+    pyind = python_indent(repo)
     L = []
     A = L.append
     A("-- GENERATED by tools/extract.d/c06_buffers.py from src/express/lexact.c, src/express/generated/expparse.c,")
@@ -655,6 +703,13 @@ def extract(repo):
     A(f"def strBufCfg : StrBufCfg := {{ allocated := {sb_alloc}, room := {sb_room}, policy := {sb_policy}, copyExtra := {sb_extra} }}")
     A("/-- `EXP_resolve_op_dot_fuzzy` / `EXP_resolve_op_group_fuzzy` mark visited selects, before recursing, with an id that is fixed for the search -/")
     A(f"def selectSearchMarkStable : Bool := {str(sel_stable).lower()}")
+    A("")
+    A("/-- resolve.c: `some L` = the recursive resolver of this kind refuses (fatal SYNTAX diagnostic) to go deeper than L levels -/")
+    A("def nestingLimits : List (String × Option Nat) := [" + ", ".join(f'("{w}", {_opt(l)})' for w, l in nest) + "]")
+    A("/-- `CASE_ITresolve` also resolves the action of OTHERWISE (an item without labels), so nesting below it is counted -/")
+    A(f"def otherwiseResolved : Bool := {str(otherwise).lower()}")
+    A("/-- exp2python `python_indent`: one fprintf per level (`.loop`) or one fwrite from an array of n tabs (`.array n`) -/")
+    A(f"def pythonIndent : IndentCfg := {pyind}")
     A("")
     A("end StepModel.Generated.C06")
     return {"C06Buffers.lean": "\n".join(L) + "\n"}
